@@ -40,6 +40,14 @@ JOBS = [
       note="bounded: one concrete DAG of 10 nodes containing every node kind, concrete scenario %d of 6 (budget, worker sets): %s; summaries arbitrary" % (k, what))
   for k, what in ((1, "within budget"), (2, "root collapsed"), (3, "created task and inner section collapsed"),
                   (4, "created task collapsed"), (5, "already minimum"), (6, "inner section collapsed"))
+] + [
+  # uncontracted side: real dr_pi_dag_enum_edges (dr_dump.c) + real dr_calc_edges (gen_stat.c) on one concrete dumped DAG
+  Job("c18.enum_edges.%s.bounded" % nm, "c18_dump.c", "h_enum_edges", kind="bounded", replace=EXIT,
+      replace_calls=["malloc:verif_malloc_1k"], cbmc=["--unwind", "16", "--unwinding-assertions", "--sat-solver", "cadical"], defines=["-DENUM_SCEN=%d" % sc],
+      fuc=["dr_pi_dag_enum_edges", "dr_pi_dag_count_edges_uncollapsed", "dr_pi_dag_node_first", "dr_pi_dag_node_last", "dr_calc_edges"], timeout=100,
+      note="bounded: one concrete dumped DAG of 14 nodes (child lists <= 4, every node kind), contraction state: %s; summaries of the created tasks and the resume kinds after the waits arbitrary" % what)
+  for sc, nm, what in ((0, "materialised", "nothing contracted"), (1, "contracted_a", "section A (two creates) contracted"),
+                       (2, "contracted_b", "section B (one create) contracted"), (3, "contracted_ab", "both sections contracted"))
 ]
 META = {
  "level": "other",
